@@ -90,7 +90,7 @@ func c13LoadFonts() {
 
 var c13Texts = []string{
 	"Hello, World!", "The quick brown fox", "office affluent ffi fl", "Ünïcödé çà et là — “quotes”", "tab\tand (parens) \\ backslash",
-	"世界你好", "mixed 世界 text", "ΑΒΓ αβγ кириллица", "a", " ", "line one\nline two", "1234567890 +-*/=", "Příliš žluťoučký kůň", "😀 emoji",
+	"世界你好", "mixed 世界 text", "ΑΒΓ αβγ кириллица", "a", " ", "line one\nline two", "1234567890 +-*/=", "Příliš žluťoučký kůň", "😀 emoji", "marks b\u0308\u0301 q\u0301 Z\u030c\u0323",
 }
 
 var c13Meta = []string{
